@@ -18,6 +18,7 @@ structure SideState where
   table : Side.SR.Table := []
   resPort : Bytes := []
   resEntries : List (Bytes × Side.Res.Entry) := []
+  resPorts : List (Bytes × Bytes) := []        -- res2: port per host name
   resFailSeen : List (Bytes × Nat) := []
   pins : Side.Pins.St := { timeout := 0, entries := [], nextClean := 0 }
   now : Nat := 0
@@ -25,6 +26,7 @@ structure SideState where
   -- observers (specification side), fed only with op arguments and implementation outputs
   resObs : List (Bytes × (List Bytes × Nat)) := []
   resObsPort : Bytes := []
+  resObsPorts : List (Bytes × Bytes) := []
   routeSeen : List (String × List String) := []  -- C18: host ↦ first answer for the current table
   pinObs : List (Bytes × Bytes × Nat) := []     -- key, backend, expiry (never purged lazily)
   pinObsT : Nat := 0
@@ -55,6 +57,7 @@ def execSide (s : SideState) (stream op : String) (a : List String) : SideState 
     let (rr', t) := Side.RR.dispatch s.rr
     ({ s with rr := rr' }, match t with | some ad => s!"to {toHexField ad}" | none => "drop")
   | "rr", "state", _ => (s, rrStateStr s)
+  | "rr", "race", _ => (s, "ok")
   | "route", "new", _ => ({ s with table := [] }, "ok")
   | "route", "add", [p, d, n] =>
     match Side.SR.newItem (unhex p) (unhex d) (unhex n) with
@@ -71,6 +74,20 @@ def execSide (s : SideState) (stream op : String) (a : List String) : SideState 
   | "res", "new", [_, port] => ({ s with rr := {}, rrIndex := [], resPort := port.toUTF8.toList, resEntries := [] }, "ok")
   | "res", "host", [h] => ({ s with resEntries := s.resEntries ++ [(unhex h, {})] }, "ok")
   | "res", "close", _ => (s, "ok")
+  | "res2", "new", _ :: _ :: hps =>
+    let pairs := hps.filterMap fun hp => cutLast 58 (unhex hp)
+    ({ s with rr := {}, rrIndex := [], resPorts := pairs, resEntries := pairs.map fun p => (p.1, {}) }, "ok")
+  | "res2", kind, h :: addrs =>
+    let host := unhex h
+    match s.resEntries.find? (fun e => e.1 == host), s.resPorts.find? (fun e => e.1 == host) with
+    | some (_, e), some (_, port) =>
+      let o := if kind == "ok" then Side.Res.Outcome.ok (addrs.map unhex) else Side.Res.Outcome.fail
+      let w : Side.Res.World := { entry := e, rot := { rr := s.rr, index := s.rrIndex } }
+      let w' := Side.Res.worldStep port w o
+      let s' := { s with rr := w'.rot.rr, rrIndex := w'.rot.index,
+                         resEntries := s.resEntries.map (fun p => if p.1 == host then (p.1, w'.entry) else p) }
+      (s', rrStateStr s')
+    | _, _ => (s, rrStateStr s)
   | "res", kind, h :: addrs =>
     let host := unhex h
     match s.resEntries.find? (fun e => e.1 == host) with
@@ -155,6 +172,25 @@ def specSide (s : SideState) (stream op : String) (a impl : List String) : SideS
   | "res", "new", [_, port] => ({ s with resObs := [], resObsPort := port.toUTF8.toList }, [])
   | "res", "host", [h] => ({ s with resObs := s.resObs ++ [(unhex h, ([], 0))] }, [])
   | "res", "close", _ => (s, [])
+  | "res2", "new", _ :: _ :: hps =>
+    let pairs := hps.filterMap fun hp => cutLast 58 (unhex hp)
+    ({ s with resObs := pairs.map fun p => (p.1, ([], 0)), resObsPorts := pairs }, [])
+  | "res2", kind, h :: addrs =>
+    let host := unhex h
+    let obs := s.resObs.map fun e =>
+      if e.1 != host then e
+      else if kind == "ok" then (e.1, (addrs.map unhex, 0))
+      else
+        let f := e.2.2 + 1
+        if f > 3 && !e.2.1.isEmpty then (e.1, ([], 0)) else (e.1, (e.2.1, f))
+    let s' := { s with resObs := obs }
+    let portOf (hn : Bytes) : Bytes := ((s.resObsPorts.find? (fun p => p.1 == hn)).map (·.2)).getD []
+    let expected := sortBytes ((obs.flatMap fun e => e.2.1.map fun ip => Side.Res.hostPort ip (portOf e.1)).eraseDups)
+    let field (name : String) : Option String :=
+      (impl.find? (fun t => t.startsWith (name ++ "="))).map (fun t => (t.drop (name.length + 1)).toString)
+    let want := hexJoin expected
+    (s', (if field "keys" == some want then [] else ["C19 rotation-members-differ-from-resolution"]) ++
+         (if field "index" == some want then [] else ["C19 proxy-address-index-differs"]))
   | "res", kind, h :: addrs =>
     let host := unhex h
     let obs := s.resObs.map fun e =>
